@@ -482,7 +482,13 @@ pub fn eval(ctx: &Ctx, case: &Case) {
             let cls = repc(&l);
             // equality against the infinities the library itself produces (zero(), P - P, [N]P, g_mul(0))
             {
-                let infs: Vec<(&str, Point)> = vec![("zero()", Point::zero()), ("P-P", pt.point_sub(&pt)), ("[N]P", pt.point_mul(&to_limbs(&pr.n))), ("g_mul(0)", Point::g_mul(&[0, 0, 0, 0]))];
+                let infs: Vec<(&str, Point)> = match guard(|| vec![("zero()", Point::zero()), ("P-P", pt.point_sub(&pt)), ("[N]P", pt.point_mul(&to_limbs(&pr.n))), ("g_mul(0)", Point::g_mul(&[0, 0, 0, 0]))]) {
+                    Guard::Done(v) => v,
+                    Guard::Panic(p) => {
+                        ctx.violation("G1 Point (zero / P-P / [N]P / g_mul(0))", &format!("panic/{}/library-infinity/{}", panic_site(&p), cls), p, cj());
+                        vec![]
+                    }
+                };
                 for (name, o) in &infs {
                     check!(ctx, "G1 Point::point_equals", format!("library-infinity:{}/{}", name, cls), cj, (pt.point_equals(o), o.point_equals(&pt), o.is_zero()), (r.is_none(), r.is_none(), true), |b: &(bool, bool, bool)| format!("{:?}", b));
                 }
@@ -575,7 +581,13 @@ pub fn eval(ctx: &Ctx, case: &Case) {
             let (pt, r) = g2rep(&k, &l);
             let cls = repc2(&l);
             {
-                let infs: Vec<(&str, TwistPoint)> = vec![("zero()", TwistPoint::zero()), ("P-P", pt.point_sub(&pt)), ("[N]P", pt.point_mul(&to_limbs(&pr.n))), ("g_mul(0)", TwistPoint::g_mul(&[0, 0, 0, 0]))];
+                let infs: Vec<(&str, TwistPoint)> = match guard(|| vec![("zero()", TwistPoint::zero()), ("P-P", pt.point_sub(&pt)), ("[N]P", pt.point_mul(&to_limbs(&pr.n))), ("g_mul(0)", TwistPoint::g_mul(&[0, 0, 0, 0]))]) {
+                    Guard::Done(v) => v,
+                    Guard::Panic(p) => {
+                        ctx.violation("G2 TwistPoint (zero / P-P / [N]P / g_mul(0))", &format!("panic/{}/library-infinity/{}", panic_site(&p), cls), p, cj());
+                        vec![]
+                    }
+                };
                 for (name, o) in &infs {
                     check!(ctx, "G2 TwistPoint::point_equals", format!("library-infinity:{}/{}", name, cls), cj, (pt.point_equals(o), o.point_equals(&pt)), (r.is_none(), r.is_none()), |b: &(bool, bool)| format!("{:?}", b));
                 }
